@@ -60,14 +60,26 @@ VF_NONDET_DECL(void *, ptr);
 /* contract vocabulary */
 #define VF_SPAN(p, n)		((n) == 0 || __CPROVER_is_fresh((p), (n)))
 #define VF_SPAN_OPT(p, n)	((p) == NULL || __CPROVER_is_fresh((p), (n)))
+/* Offsets are compared as integers (__CPROVER_POINTER_OFFSET), not as pointer relations:
+ * CBMC instruments pointer relations inside contract clauses with its own bounds checks,
+ * which fail spuriously when the clause is *assumed* about a nondeterministic pointer
+ * (replaced callee) and which are redundant when it is asserted. */
+#define VF_OFF(q)		((size_t)__CPROVER_POINTER_OFFSET(q))
 #define VF_INSIDE(q, len, p, n)						\
 	((len) == 0 || (__CPROVER_same_object((q), (p)) &&		\
-	    (const uint8_t *)(p) <= (const uint8_t *)(q) &&		\
-	    (size_t)((const uint8_t *)(q) - (const uint8_t *)(p)) + (size_t)(len) <= (size_t)(n)))
+	    VF_OFF(p) <= VF_OFF(q) &&					\
+	    (VF_OFF(q) - VF_OFF(p)) <= (size_t)(n) &&			\
+	    (size_t)(len) <= (size_t)(n) - (VF_OFF(q) - VF_OFF(p))))
 #define VF_PTR_INSIDE(q, p, n)						\
 	(__CPROVER_same_object((q), (p)) &&				\
-	    (const uint8_t *)(p) <= (const uint8_t *)(q) &&		\
-	    (size_t)((const uint8_t *)(q) - (const uint8_t *)(p)) <= (size_t)(n))
+	    VF_OFF(p) <= VF_OFF(q) &&					\
+	    (VF_OFF(q) - VF_OFF(p)) <= (size_t)(n))
+/* r == NULL or p+lo <= r < p+hi */
+#define VF_IN_OR_NULL(r, p, lo, hi)					\
+	((r) == NULL || (__CPROVER_same_object((r), (p)) &&		\
+	    VF_OFF(p) <= VF_OFF(r) &&					\
+	    (VF_OFF(r) - VF_OFF(p)) >= (size_t)(lo) &&			\
+	    (VF_OFF(r) - VF_OFF(p)) < (size_t)(hi)))
 
 #else
 /* ---------------------------------------------------------------- native ---- */
